@@ -18,6 +18,7 @@ mod h_c18;
 mod h_c17;
 mod h_c15;
 mod h_c14;
+mod h_c10;
 
 use std::io::{self, BufRead, Write};
 
@@ -73,6 +74,9 @@ fn dispatch(v: &Val) -> Val {
         1700 => h_c17::run(&l[1]),
         1500 => h_c15::run(&l[1]),
         1400 => h_c14::run(&l[1]),
+        1000 => h_c10::encode(&l[1]),
+        1001 => h_c10::decode(&l[1]),
+        1002 => h_c10::valid_path(&l[1]),
         _ => sexp::bad_input(),
     }
 }
